@@ -543,10 +543,9 @@ static int pad_pkcs2(bn_t m, size_t *p_len, size_t m_len, size_t k_len,
 				pad = (uint8_t)t->dp[0];
 				if (pad == RSA_PSS) {
 					int r = 1;
-					for (int i = m_len; i < 8 * k_len; i++) {
-						if (bn_get_bit(m, i) != 0) {
-							r = 0;
-						}
+					/* The bits from emBits = m_len - 1 upwards are zero. */
+					if (bn_bits(m) > m_len - 1) {
+						r = 0;
 					}
 					bn_rsh(m, m, 8);
 					bn_mod_2b(t, m, 8 * RLC_MD_LEN);
